@@ -28,7 +28,7 @@ def _sym(t):
 
 
 def r1(ctx):
-    b = ctx.fbody(name="generate", self_adt=TSG, trait="")
+    b = ctx.fibody(name="generate", self_adt=TSG, trait="")
     tc, lc, ts, ls = sympy.symbols("total_count losses_count total_sum losses_sum")
     want = {
         "WinRate::calculate": [("wins", tc - lc), ("total", tc)],
@@ -39,7 +39,7 @@ def r1(ctx):
         cs = [(bi, t, term) for bi, t, term in calls if mir.short(term[1]) == name]
         ctx.check("TearSheetGenerator::generate:" + name, len(cs) == 1, "called exactly once", got=len(cs), key="once")
         for bi, t, term in cs:
-            cb = ctx.body(term[1])
+            cb = ctx.ibody(term[1])
             pnames = [cb.locals[i]["name"] for i in range(1, cb.argc + 1)]
             ctx.check("TearSheetGenerator::generate:" + name, pnames == [p for p, _ in exp], "callee parameter roles",
                       got=pnames, want=[p for p, _ in exp], key="params")
@@ -56,7 +56,7 @@ def r1(ctx):
 
 
 def r2(ctx):
-    b = ctx.fbody(name="update", self_adt=PNL, trait="")
+    b = ctx.fibody(name="update", self_adt=PNL, trait="")
     calls = b.real_calls()
     ret = [term for bi, t, term in calls if mir.short(term[1]) == "position::calculate_pnl_return"]
     ctx.check("PnLReturns::update", len(ret) == 1 and [render(a) for a in ret[0][2]] ==
@@ -66,7 +66,7 @@ def r2(ctx):
     if len(ret) != 1:
         return
     r = ret[0]
-    cb = ctx.body(r[1])
+    cb = ctx.ibody(r[1])
     ctx.check("calculate_pnl_return", [cb.locals[i]["name"] for i in range(1, cb.argc + 1)] ==
               ["pnl_realised", "price_entry_average", "quantity_abs_max"], "parameter roles", key="params")
     eff = common.effects(b, lambda p: atoms.mentions_param(p, "self"))
@@ -112,7 +112,7 @@ def _classify(term):
 
 def r3(ctx):
     # WinRate::calculate
-    b = ctx.fbody(name="calculate", self_adt="barter::statistic::metric::win_rate::WinRate", trait="")
+    b = ctx.fibody(name="calculate", self_adt="barter::statistic::metric::win_rate::WinRate", trait="")
     cases = formula.return_cases(b)
 
     def val_wr(cell):
@@ -132,7 +132,7 @@ def r3(ctx):
            lambda c: oracle[(c["total"], c["div"])])
 
     # ProfitFactor::calculate
-    b = ctx.fbody(name="calculate", self_adt="barter::statistic::metric::profit_factor::ProfitFactor", trait="")
+    b = ctx.fibody(name="calculate", self_adt="barter::statistic::metric::profit_factor::ProfitFactor", trait="")
     cases = []
     for g, term, bi in formula.return_cases(b):
         phis = [t for t in mir.subterms(term) if t[0] == "phi" and len(t) > 2 and t[2] is not None]
@@ -196,7 +196,7 @@ def _cellname(cell):
 
 
 def r4(ctx):
-    b = ctx.fbody(name="generate", self_adt=TSG, trait="")
+    b = ctx.fibody(name="generate", self_adt=TSG, trait="")
     rt = b.return_term()
     ok = rt[0] == "agg" and rt[1].endswith("TearSheet::TearSheet")
     ctx.check("TearSheetGenerator::generate", ok, "returns a TearSheet literal", got=render(rt)[:200], key="shape")
@@ -216,7 +216,7 @@ def r4(ctx):
 def r5(ctx):
     TS = "barter::statistic::summary::TradingSummaryGenerator"
     init = ctx.find(name="init", self_adt=TS, trait="")
-    b = ctx.body(init)
+    b = ctx.ibody(init)
     rt = b.return_term()
     f = dict(zip(rt[2], rt[3])) if rt[0] == "agg" else {}
     want = {
@@ -248,11 +248,11 @@ def r5(ctx):
                               "the per-entity table keeps the engine's index order (it is looked up by position)",
                               sites=[x[1] for x in muts], got=[x[0] for x in muts], key="order-kept")
     gen = ctx.find(name="generate", self_adt=TS, trait="")
-    b = ctx.body(gen)
+    b = ctx.ibody(gen)
     rt = b.return_term()
     f = dict(zip(rt[2], rt[3])) if rt[0] == "agg" else {}
     want = {
-        "instruments": ("IndexMap::iter_mut(self.instruments)", "tuple{0: $1.0, 1: TearSheetGenerator::generate($1.1, ^*self.risk_free_return, ^interval)}"),
+        "instruments": ("IndexMap::iter_mut(self.instruments)", "tuple{0: $1.0, 1: TearSheetGenerator::generate($1.1, self.risk_free_return, interval)}"),
         "assets": ("IndexMap::iter_mut(self.assets)", "tuple{0: $1.0, 1: TearSheetAssetGenerator::generate($1.1)}"),
     }
     for field, (src, pair) in want.items():
@@ -262,7 +262,7 @@ def r5(ctx):
         if t and t[0] == "call" and t[1].endswith("Iterator::collect") and t[2][0][0] == "call" and t[2][0][1].endswith("Iterator::map"):
             m = t[2][0]
             cb, _ = mir.closure_body(ctx.facts, m[2][1])
-            got = (render(m[2][0]), render(cb.return_term()) if cb else None)
+            got = (render(m[2][0]), render(mir.in_closure(ctx.facts, m[2][1], cb.return_term())) if cb else None)
             ok = got == (src, pair)
         ctx.check("TradingSummaryGenerator::generate:" + field, ok,
                   "each reported tear sheet is generated from the generator stored under that very key",
@@ -270,22 +270,16 @@ def r5(ctx):
     common.summary_forwarders(ctx)
     # a closed position updates the tear sheet of its own InstrumentState
     IS = "barter::engine::state::instrument::InstrumentState"
-    b = ctx.fbody(name="update_from_trade", self_adt=IS, trait="")
-    rt = b.return_term()
-    ok = False
-    got = render(rt)
-    if rt[0] == "call" and rt[1].endswith("::inspect") and rt[2][1][0] == "agg":
-        inner = rt[2][0]
-        cb, m = mir.closure_body(ctx.facts, rt[2][1])
-        crt = mir.in_closure(ctx.facts, rt[2][1], cb.return_term()) if cb else None
-        got = (render(inner), render(crt) if crt else None)
-        ok = got == ("PositionManager::update_from_trade(self.position, trade)",
-                     "TearSheetGenerator::update_from_position(self.tear_sheet, $1)")
+    b = ctx.fibody(name="update_from_trade", self_adt=IS, trait="")
+    pm = "PositionManager::update_from_trade(self.position, trade)"
+    ups = [(bi, render(tm), common.canon_guard(b.guard(bi))) for bi, t, tm in b.real_calls() if mir.short(tm[1]) == "TearSheetGenerator::update_from_position"]
+    ok = len(ups) == 1 and ups[0][1] == "TearSheetGenerator::update_from_position(self.tear_sheet, %s.as:Some.0)" % pm and \
+        ups[0][2] == "(%s is Some)" % pm and render(b.return_term()) == pm
     ctx.check("InstrumentState::update_from_trade", ok,
-              "the closed-position record of this instrument's position manager feeds this instrument's own tear sheet",
-              got=got, key="feeds-own")
+              "the closed-position record of this instrument's position manager feeds this instrument's own tear sheet, exactly "
+              "when a position was closed, and is returned unchanged", got=[x[1:] for x in ups] + [render(b.return_term())[:120]], key="feeds-own")
     # TearSheetGenerator::update_from_position feeds pnl_returns with that record
-    b = ctx.fbody(name="update_from_position", self_adt=TSG, trait="")
+    b = ctx.fibody(name="update_from_position", self_adt=TSG, trait="")
     cs = [(bi, t, term) for bi, t, term in b.real_calls() if mir.short(term[1]) == "PnLReturns::update"]
     ok = len(cs) == 1 and [render(a) for a in cs[0][2][2]] == ["self.pnl_returns", "position"] and \
         b.guard(cs[0][0]) == frozenset([frozenset()])
